@@ -361,6 +361,9 @@ def groups(tier, seed):
     yield {'cases': [{'kind': 'where-rhs', 'e': e, 'op': o} for e in ('2*3', '12/2', '14%8', 'size*1', '2*3+1', '(2*3)', '1+2*3', '2 * 3', '10-2*2', 'hardlinks*5',
                                                                         '5 / 2', '7/2', 'size/2', '2030-2024', '20000-19995', '2024-size', '2000-10', '2017-5', 'hardlinks_x' if False else '2000-1993')
                      for o in ('=', '!=', '>=', '<', 'gte', 'eq')]}
+    # the same operand (with a function call in it) asked for twice by one WHERE clause, against literals that only a numeric comparison understands
+    yield {'cases': [{'kind': 'where-twice', 'e': e, 'shape': sh} for e in ('length(name) * size * 100', 'abs(size - 100) * 10', 'size * 100 / greatest(hardlinks, 1)', 'size * 100')
+                     for sh in range(7)]}
     # a condition on an expression with the same digits under both signs
     yield {'cases': [{'kind': 'where-signed', 'e': e, 'k': k, 'shape': sh} for e in ('size - 10', 'size * 2 - 20', 'size % 7 - 3', '0 - size', 'size / 2 - 5')
                      for k in (1, 3, 5, 12) for sh in range(5)]}
@@ -456,6 +459,27 @@ def eval_group(env, group, tier):
                              detail={'query': q, 'got': sorted(o.rows()), 'expected': want, 'err': o.brief()['err']})
                 else:
                     r.update(status='ok', sig=('where-rhs', c['e'], c['op']))
+                outs.append(r)
+                continue
+            if kind == 'where-twice':
+                e_ = c['e']
+                cond, f = [('%s between 1k and 5k' % e_, lambda v: 1024 <= v <= 5120), ('%s < 1k or %s > 5k' % (e_, e_), lambda v: v < 1024 or v > 5120),
+                           ('%s >= 1k and %s <= 5k' % (e_, e_), lambda v: 1024 <= v <= 5120), ('not %s < 1k and %s < 0.01m' % (e_, e_), lambda v: 1024 <= v < 10485.76),
+                           ('%s not between 1k and 5k' % e_, lambda v: not 1024 <= v <= 5120), ('%s > 0.5kb and %s > 1k' % (e_, e_), lambda v: v > 1024),
+                           ('%s != 1k and (%s < 1k or %s >= 2kib)' % (e_, e_, e_), lambda v: v < 1024 or v >= 2048)][c['shape']]
+                ov = env.run(['name, %s into list' % e_], cwd=root)
+                vals_ = {n: fnum(v) for n, v in (ov.rows(2) or [])}
+                if ov.rc != 0 or len(vals_) != len(ents) or any(v is None for v in vals_.values()):
+                    raise core.MachineryError('C15 where-twice reference failed %r' % ov.brief())
+                want = sorted(n for n, v in vals_.items() if f(v))
+                q = 'name where %s into list' % cond
+                o = env.run([q], cwd=root)
+                r['nt'] = 0 < len(want) < len(ents)
+                r['trans'] = len(ents)
+                if o.rc != 0 or o.err or sorted(o.rows()) != want:
+                    r.update(status='viol', cls='where-operand-asked-twice', sig=('where-twice',), detail={'query': q, 'got': sorted(o.rows()), 'expected': want, 'err': o.brief()['err']})
+                else:
+                    r.update(status='ok', sig=('where-twice', cond))
                 outs.append(r)
                 continue
             if kind == 'where-signed':
